@@ -1560,10 +1560,9 @@ class Parameter(_ParameterBase):
             if ref is not None:
                 relink = partial(self.owner.param._update_ref, name, ref)
             elif name in refs and not syncing:
-                def relink():
-                    del refs[name]
-                    if name in obj._param__private.async_refs:
-                        obj._param__private.async_refs.pop(name).cancel()
+                # drops the link together with the watchers installed on its
+                # sources (and cancels a pending asynchronous reference)
+                relink = partial(self.owner.param._update_ref, name, Undefined)
             if is_async or val is Undefined:
                 if relink is not None:
                     relink()
@@ -2169,6 +2168,9 @@ class Parameters:
             dep_obj.param.unwatch(watcher)
         self_.self._param__private.ref_watchers = []
         refs = dict(self_.self._param__private.refs, **{name: ref})
+        if ref is Undefined:
+            # the link is being removed (the parameter was given a plain value)
+            del refs[name]
         deps = {name: resolve_ref(ref, self_[name].nested_refs) for name, ref in refs.items()}
         self_._setup_refs(deps)
         self_.self._param__private.refs = refs
